@@ -434,11 +434,17 @@ def run_net(env, case, want_db=False):
     # a fresh loop and a fresh database: nothing can be in flight.  (A previous case of the same worker that was torn
     # down with a database coroutine still suspended — e.g. a recovery run of C07 — never ran its `finally`.)
     Env.INFLIGHT = 0
+    diag = os.environ.get("SFV_DIAG")          # development aid: where is a run that takes more than 90 s of wall time?
+    if diag:
+        import faulthandler
+        faulthandler.dump_traceback_later(90, repeat=False, file=open(f"{diag}-{os.getpid()}.txt", "a"))
     loop = PermLoop(case.get("sched", 0))
     asyncio.set_event_loop(loop)
     try:
         return loop.run_until_complete(_main(env, case, loop, want_db))
     finally:
+        if diag:
+            faulthandler.cancel_dump_traceback_later()
         try:
             loop.run_until_complete(loop.shutdown_asyncgens())
         finally:
